@@ -769,6 +769,13 @@ func genC07(g *Gen) {
 			cls = "wide"
 		}
 		fixLinkChains(view)
+		// a file of a few full packets, so that short and full payloads can mix
+		if !huge && r.Chance(12) {
+			sz := 33000 + r.Intn(40000)
+			view = append(view, &MNode{Name: "zmid", Stat: &types.Stat{Mode: 0644, Size: int64(sz), ModTime: 1600000000e9}, Content: fillContent(r, sz)})
+			sort.SliceStable(view, func(a, b int) bool { return view[a].Name < view[b].Name })
+			cls += "+mid"
+		}
 		// the bytes the sender serves for an id need not have the length announced in its STAT
 		// (the file changed between the walk and the read; the protocol does not tie them)
 		if !huge && r.Chance(35) {
@@ -799,16 +806,26 @@ func genC07(g *Gen) {
 				nreg++
 			}
 		}
-		sc := refSendScript{ChunkMode: r.Intn(2), StatWeight: Pick(r, []int{0, 10, 50, 90, 100}), Pick: r.Intn(4), Seed: r.U64()}
+		sc := refSendScript{ChunkMode: r.Intn(4), StatWeight: Pick(r, []int{0, 10, 50, 90, 100}), Pick: r.Intn(4), Seed: r.U64()}
 		sc.Chunk = Pick(r, []int{1, 2, 7, 100, 4096, 32768, 65536, 1 << 20})
 		if huge {
 			sc.Chunk = Pick(r, []int{1 << 20, 1 << 20, 65536, 300000})
 		} else if bytesTotal > 20000 && sc.Chunk < 100 {
 			sc.Chunk = 4096
 		}
+		if sc.ChunkMode >= 2 && sc.Chunk > 4096 {
+			sc.Chunk = Pick(r, []int{1, 8, 100, 4096})
+		}
 		if r.Chance(15) && !huge {
 			sc.Ending = 1 + r.Intn(3)
 			sc.CloseAfter = r.Intn(len(entries) + 2 + nreg)
+			if sc.Ending >= 2 && r.Chance(50) {
+				// the stream ends in the DATA phase: all STATs and the end marker have been consumed,
+				// some requested ids have not been terminated yet
+				sc.StatWeight = 100
+				sc.CloseAfter = len(entries) + 1 + r.Intn(2*nreg+1)
+				cls += "+indata"
+			}
 			cls += fmt.Sprintf("+end%d", sc.Ending)
 		}
 		capacity := Pick(r, []int{0, 0, 1, 2, 8, 64, r.Intn(65)})
@@ -1060,6 +1077,19 @@ func directedC07() []Sx {
 		over = append(over,
 			c07Ext(c07Input(resized(), nil, nil, false, 0, refSendScript{Chunk: 2, StatWeight: 50, Pick: 3, Seed: 31}, 1, false), t, nil),
 			c07Ext(c07Input(resized(), rprior, nil, false, 0, refSendScript{Chunk: 100, StatWeight: 100, Pick: 1, Seed: 32}, 0, false), t, nil),
+		)
+	}
+	// short payloads before / between full ones for the same id (two ids interleaved)
+	mixed := []*MNode{fileNode("d-shortfirst", string(fillContent(NewRng(6), 32776))), fileNode("e-mixed", string(fillContent(NewRng(7), 65546)))}
+	over = append(over,
+		c07Ext(c07Input(mixed, nil, nil, false, 0, refSendScript{ChunkMode: 2, Chunk: 8, StatWeight: 50, Pick: 3, Seed: 41}, 1, false), 0, nil),
+		c07Ext(c07Input(mixed, nil, nil, false, 0, refSendScript{ChunkMode: 3, Chunk: 100, StatWeight: 100, Pick: 0, Seed: 42}, 0, false), 4, nil),
+	)
+	// the stream ends (EOF / ERR) in the DATA phase: end marker consumed, requests outstanding
+	for t := 0; t < c0607Transports; t++ {
+		over = append(over,
+			c07Ext(c07Input(many, nil, nil, false, 0, refSendScript{Chunk: 1, StatWeight: 100, Pick: 1, Ending: 2, CloseAfter: 13 + 30, Seed: 43}, 0, false), t, nil),
+			c07Ext(c07Input(many, nil, nil, false, 0, refSendScript{Chunk: 1, StatWeight: 100, Pick: 3, Ending: 3, CloseAfter: 13 + 40, Seed: 44}, 2, false), t, nil),
 		)
 	}
 	// one REQ kept in flight while the other writers have theirs to send
